@@ -210,7 +210,7 @@ fn programs(e: &E) -> Vec<(&'static str, Vec<E>)> {
 }
 
 pub fn run(ctx: &mut Ctx) {
-    let depth = if ctx.quick() { 2 } else { 3 };
+    let depth = if ctx.quick() { 3 } else { 4 };
     let base = shapes();
     let mut level: Vec<E> = base.iter().map(|s| s.e.clone()).collect();
     for d in 1..=depth {
